@@ -50,10 +50,17 @@ CLAIMED['C16'] = dict(
          "Wide scan: the 172 unchecked usize subtractions of the crate are inventoried by function identity and source text (c16_sites.json, audited); a "
          "subtraction outside the inventory is decided under-constrained and a counterexample replayed on a stress corpus. The byte range that "
          "format_len/annotation hand to the diagnostic renderer lies inside the line and on character boundaries (abstract boundary predicate, std contracts "
-         "for rfind/trim_end/char_indices). Parser panics, catch_unwind containment and stack depth are outside this technique.",
+         "for rfind/trim_end/char_indices). Containment: Parser::parse_crate (with ParserBuilder::build), Parser::parse_file_as_module, rewrite_macro and "
+         "format_snippet are executed with every call into rustc_parse / rewrite_macro_inner / Session::format_input_inner as environment that returns an "
+         "arbitrary value or unwinds, and std::panic::catch_unwind as 'run the real closure, an unwind inside becomes Err': no path leaves the entry point "
+         "by unwinding and a path on which the guarded code unwound returns the failure value (rewrite_macro also sets macro_rewrite_failure). Stack depth "
+         "and aborts inside rustc are outside this technique.",
     note="Trusted: MIR printer, mirsym (lazy under-constrained objects; callees outside shape.rs/config/formatting.rs are uninterpreted and havoc their &mut "
          "arguments), all usize quantities assumed < 2^32. Indent - Indent and Indent - usize are caller-contract dependent and listed, not decided. "
-         "A solver counterexample is reported only if the real binary panics at the same source line on a generated nested input.",
+         "A solver counterexample is reported only if the real binary panics at the same source line on a generated nested input; containment "
+         "counterexamples are replayed with broken literals (root file, standard input, out-of-line module) and with the cfg-guarded fault hook "
+         "RUSTFMT_VERIF_FAULT that makes the formatting of one macro call / one snippet panic in the real binary. Defect found and fixed: the root parser was "
+         "created outside catch_unwind (44be904).",
     design='§5 C16')
 
 CLAIMED['C07'] = dict(
@@ -181,11 +188,17 @@ CLAIMED['C09'] = dict(
          "comparison site the constant operand is recovered from the promoted constant and the outcome is computed through the real "
          "<StyleEdition as PartialOrd>::partial_cmp MIR for a symbolic pair of editions inside the class; the solver shows the outcomes equal. A match "
          "that sends the three members to different blocks, or two default paths with different values both reachable inside the class, is a violation. "
-         "Byte-identity with the pinned release is outside solver-based checking and not claimed.",
+         "Second half (identity with the pinned release), three frozen kernels only: Config::default_with_style_edition executed for a symbolic released "
+         "style edition (2015..2024) gives, for each of 78 scalar / enum options, the value the pinned release printed (reference/c09_release_defaults.json); "
+         "WidthHeuristics::scaled(max_width) equals the release's computation written independently in IEEE binary32 for every max_width 20..10000; "
+         "compare_items consults plain string order up to style edition 2021 and version_sort from 2024 on every path (comparators as observed environment, "
+         "style edition symbolic through the real partial_cmp). Byte-identity of whole outputs with the pinned release beyond these kernels is outside "
+         "solver-based checking and not claimed.",
     note="Level other: non-interference of a 3-element class, decided per decision site. Trusted: MIR printer (promoted constants, call names), mirsym, "
          "rustc_span Edition order = discriminant order. Sites in src/config (conversion, printing, is_default) and derived impls legitimately inspect the "
          "edition; they are listed in evidence, not checked. Replay: the real binary with --style-edition 2015/2018/2021 over tests/source, tests/target, "
-         "src and two crafted files.",
+         "src and two crafted files; --print-config per edition / per max_width against the frozen table; crafted mod / extern crate lists against the "
+         "outputs the pinned release printed (reference/c09_release_ordering.json, frozen once by tools/c09_freeze.py).",
     design='§5 C09',
     technique="solver-decided non-interference per decision site: MIR scan + symbolic execution of the real partial_cmp (mirsym), cvc5/z3; corpus replay")
 
@@ -196,10 +209,15 @@ CLAIMED['C11'] = dict(
          "identifier, are maximal, have the right kind, numeric value and leading-zero count; (b) version_sort over harness chunk lists with symbolic "
          "kinds/values/zero counts and uninterpreted texts: antisymmetric, reflexive, Equal only for identical chunk lists (pairs up to 3, thorough 4 "
          "chunks), transitive (triples up to 2, thorough 3 chunks). Together: a total preorder in which only identical identifiers tie, so the sorted "
-         "order cannot depend on the input order.",
+         "order cannot depend on the input order. (c) every call of a sorting routine in the MIR of reorder.rs and imports.rs is a routine whose documented "
+         "contract keeps equal elements in order (two-element model per site; sort_unstable* refuted). (d) ReorderableItemKind::from over an arbitrary item: "
+         "#[macro_use] or a skip attribute make it a barrier, two ast kinds never share a reorderable kind; the take_while predicate of "
+         "walk_reorderable_or_regroupable_items over arbitrary line ranges: an item joins the run iff it has the run's kind and (when blank lines delimit) "
+         "starts at most one line after the previous item ends, and the accepted item becomes the previous one.",
     note="Known finding (open): a digit run >= 2^64 ends the chunk iterator early. Trusted: MIR printer, mirsym, string model for ASCII identifiers of "
          "concrete length, str::cmp as a ground-instantiated total order on chunk texts with digits < letters, zip_longest/EitherOrBoth cursor. Outside: "
-         "group delimiting and attachment of comments (AST), the <= 2021 UseSegment order, compare_items, permutation -> same text.",
+         "attachment of comments and attributes to the moved elements (AST), the <= 2021 UseSegment order, compare_items beyond its comparator choice (C09), "
+         "permutation -> same text. The sort-site part is a contract audit of call sites, not a proof about std's sort.",
     design='§5 C11')
 
 CLAIMED['C03'] = dict(
@@ -209,12 +227,15 @@ CLAIMED['C03'] = dict(
          "harness-supplied slice lists (<= 2 slices of symbolic kind per text) and an abstract payload function: it reports a change exactly when the "
          "payload streams of ALL comment slices differ, so no comment slice is exempt from the comparison; CharClasses::next as one step from each "
          "comment-tracking status with symbolic current/look-ahead characters and symbolic nesting depth: /* and // and nothing else start a comment, "
-         "nesting is counted, a block comment ends when the depth reaches zero, a line comment ends at the newline, code is never labelled comment; "
+         "nesting is counted, a block comment ends when the depth reaches zero, a line comment ends at the newline, code is never labelled comment; one step "
+         "from each literal-tracking status against the lexical grammar of Rust literals (a string runs to the next unescaped quote, an apostrophe opens a "
+         "character literal iff a backslash or one character and an apostrophe follow, raw-string sharps are counted up and down, no character of a literal "
+         "is labelled comment); "
          "net wiring: on every path (under-constrained, all callees uninterpreted) on which format_stmt, format_expr (956 paths) or rewrite_static returns a "
          "text, that text went through recover_comment_removed or is the verbatim source snippet.",
     note="Trusted: MIR printer, mirsym, itertools MultiPeek cursor semantics, tracing disabled, payload(text) abstract (CommentReducer itself is not "
          "encoded), lazy iterator adaptors with the real closure MIR. Outside: rewriters other than the three the anchors name, list machinery, close_block, "
-         "rewrite_comment, whole-text agreement of the string/char/lifetime segmentation with the Rust lexer. Replay: real binary on crafted sources, "
+         "rewrite_comment, whole-text agreement of the segmentation with the Rust lexer (one step per status is decided). Replay: real binary on crafted sources, "
          "each comment word must appear exactly once.",
     design='§5 C03')
 
@@ -226,7 +247,10 @@ CLAIMED['C05'] = dict(
          "them) for a path input and for standard input and 0..2 (thorough 3) modules returned by the resolver, with ParseSess::new, Parser::parse_crate, "
          "ModResolver::visit_crate and FormatContext::format_file as symbolic Ok/Err environment: no file is handed to format_file unless session, parse "
          "and resolution all succeeded before; a parse error is recorded in the report and ends the run with nothing formatted; a resolution error or a "
-         "format_file error is returned as Err (never swallowed); every format_file call pairs a path with its own module. Which inputs fail to parse or "
+         "format_file error is returned as Err (never swallowed); every format_file call pairs a path with its own module. Emitter kernel: one step of SilentOnIgnoredFilesEmitter::emit_diagnostic from an "
+         "arbitrary state (a non-ignorable error was seen / errors may be reset, invariant seen => not resettable) with the diagnostic's level and 'its file is "
+         "ignored' symbolic: a non-fatal diagnostic of an ignored file is swallowed and leaves the state alone, every other one is forwarded exactly once, "
+         "recorded, and forbids the reset. Which inputs fail to parse or "
          "resolve, config/version errors raised earlier, and what format_file writes (C06) are outside.",
     note="Level other, stated as thin: it decides the gate, not the parser. Trusted: MIR printer, mirsym under-constrained mode, the environment contract above. "
          "Replay: the real binary on module trees with a syntax error / a missing module / a failing root next to a good one, file hashes and exit status, and an "
@@ -248,11 +272,12 @@ CLAIMED['C13'] = dict(
 CLAIMED['C04'] = dict(
     category='other',
     text="Thin kernels of C04: (1) utils.rs::{is_skip, is_skip_nested, contains_skip} on their real MIR with rustc_ast's MetaItem as an under-constrained "
-         "object: a word attribute is a skip attribute iff its printed path is `rustfmt::skip` or `rustfmt_skip`, a list attribute iff it is cfg_attr with "
-         "exactly two entries whose second is a skip item, nothing else; a list of attributes contains a skip iff one of its parsable attributes is one. "
+         "object: a word attribute is a skip attribute iff its printed path is `rustfmt::skip` or `rustfmt_skip`, a list attribute iff it is cfg_attr and some entry after its predicate is a skip item "
+         "(list lengths 0..3), nothing else; a list of attributes contains a skip iff one of its parsable attributes is one. "
          "(2) format_project never hands a module carrying the skip attribute to format_file (path input) and echoes standard input back instead. "
          "(3) Session::format_input_inner reaches format_project only when disable_all_formatting is off (standard input is echoed, a path yields an empty "
-         "report). The visitors and rewriters that copy the span of a skipped item / statement / expression / field / arm, skip::macros and "
+         "report). (4) is_generated_file over up to 4 lines with the marker predicate symbolic per line: true iff one of the first "
+         "generated_marker_line_search_limit lines carries the marker. The visitors and rewriters that copy the span of a skipped item / statement / expression / field / arm, skip::macros and "
          "skip::attributes are AST code and outside.",
     note="Level other, stated as thin. Trusted: MIR printer, mirsym under-constrained objects for rustc_ast types (unconstrained discriminants, lazily "
          "materialised payloads), pprust::path_to_string / has_name / ThinVec::len as symbolic environment. Replay: the real binary on items under each "
